@@ -38,7 +38,7 @@
         //@ before (tlv,bytes)=<
         //@ tag tags.no_second_dispatch.tlv C13
             proof { assert(!seen.contains(6u16)); seen = seen.insert(6u16) ; }
-        //@ before returnErr(zvt_builder::ZVTError::DuplicateTag(zvt_builder::Tag(6u16)
+        //@ before returnErr(zvt_builder::ZVTError::DuplicateTag(
         //@ tag tags.duplicate_error_is_true.tlv C13
             proof { assert(seen.contains(6u16)) ; }
         //@ before letmutas_vec
@@ -176,7 +176,7 @@
         //@ before (tlv,bytes)=<
         //@ tag tags.no_second_dispatch.tlv C13
             proof { assert(!seen.contains(6u16)); seen = seen.insert(6u16) ; }
-        //@ before returnErr(zvt_builder::ZVTError::DuplicateTag(zvt_builder::Tag(6u16)
+        //@ before returnErr(zvt_builder::ZVTError::DuplicateTag(
         //@ tag tags.duplicate_error_is_true.tlv C13
             proof { assert(seen.contains(6u16)) ; }
         //@ before letmutas_vec
@@ -248,7 +248,7 @@
         //@ before (tlv,bytes)=<
         //@ tag tags.no_second_dispatch.tlv C13
             proof { assert(!seen.contains(6u16)); seen = seen.insert(6u16) ; }
-        //@ before returnErr(zvt_builder::ZVTError::DuplicateTag(zvt_builder::Tag(6u16)
+        //@ before returnErr(zvt_builder::ZVTError::DuplicateTag(
         //@ tag tags.duplicate_error_is_true.tlv C13
             proof { assert(seen.contains(6u16)) ; }
         //@ before letmutas_vec
@@ -386,7 +386,7 @@
         //@ before (tlv,bytes)=<
         //@ tag tags.no_second_dispatch.tlv C13
             proof { assert(!seen.contains(6u16)); seen = seen.insert(6u16) ; }
-        //@ before returnErr(zvt_builder::ZVTError::DuplicateTag(zvt_builder::Tag(6u16)
+        //@ before returnErr(zvt_builder::ZVTError::DuplicateTag(
         //@ tag tags.duplicate_error_is_true.tlv C13
             proof { assert(seen.contains(6u16)) ; }
         //@ before letmutas_vec
